@@ -73,6 +73,14 @@ CHECKS.update({
              note=TB + "Weights are exact integers in units of 1/4; long double accumulation and rounding are outside the model (DESIGN.md §10).",
              tech="Coq refinement proof (directed weighted model -> weight-function spec, exact arithmetic) + differential correspondence for both classes", ref="DESIGN.md §6 C05"),
 })
+CHECKS.update({
+ 'C09': dict(text="Theorems C09_reversed, C09_reversed_twice, C09_edge_list_constructor (Coq, directed labelled model, every label type): getReversedGraph = exactly the flipped edges with "
+                  "their labels on every graph satisfying the invariant; reversing twice is == the original; the edge-list constructor yields 1+max-index vertices (0 for an empty list) and "
+                  "the graph of adding the edges one at a time (first label wins), for every list. PARTIAL: getDirectedGraph, undirected-from-directed, the round trip, the constructors of "
+                  "the other seven classes and copy/assignment are covered by the correspondence check against the Coq model and the spec images, with four or five standard containers.",
+             note=TB + "Copy construction/assignment independence is a property of C++ value semantics (identity in the model), exercised under C06.",
+             tech="Coq proof (fold-of-addEdge lemma -> reversal, double reversal, constructor) + differential correspondence for all conversions/constructors", ref="DESIGN.md §6 C09"),
+})
 NA = {'C20': "about the C++ type checker/linker accepting client programs (template instantiation, overload resolution, ODR): no executable Gallina model has a counterpart, so machine-checked proof cannot apply (DESIGN.md §6 C20)"}
 def main():
     props = [json.loads(l)['id'] for l in open(os.path.join(ROOT, 'properties.jsonl'))]
